@@ -610,10 +610,10 @@ fn write_evidence(
         },
         "assumptions": [
             "REF conventions (DESIGN.md section 3): staff term = #departure segments x costs.staff; legs to/from the overflow depot are compared exactly only through the repo's public constants INF_DISTANCE / planning_days, otherwise as lower bounds",
-            "generated instances keep dead-head durations <= 10 h and distances <= 1000 km so the loader's clamps never trigger",
+            "REF mirrors the loader's two documented clamps (dead-head duration > planning duration -> planning duration; distance > 1000 km -> 1000 km); generated instances reach both through sentinel values (100000 s / 5000 km)",
             "info block, vehicle ids, dead-head trip ids and list orders are not compared",
             "rayon's steal order is not controlled; results are compared across worker counts instead (selftest)",
-            "sampling, not enumeration: <= 12 departure segments, <= 3 types, <= 5 locations"
+            "sampling, not enumeration (except the C12x / C15x small-scope parts): <= 18 departure segments, <= 3 types, <= 5 locations, <= 3 planning days"
         ],
         "wall_s": wall,
         "violations": reported,
